@@ -180,7 +180,7 @@ func (e *Engine) verifyFunc(name, prop string, safety bool) *FuncResult {
 						res.Err = fmt.Errorf("ensures %s: %v", cl.Label, err)
 						return res
 					}
-					r.addOblig(&Oblig{Name: fmt.Sprintf("%s#post#%s@ret%d", fname, cl.Label, k), Kind: "post", Func: fname, Label: cl.Label, Tags: cl.Tags, Text: cl.Text, Guard: rr.st.guard, Goal: g})
+					r.addOblig(&Oblig{Name: fmt.Sprintf("%s#post#%s@ret%d", fname, cl.Label, k), Kind: "post", Func: fname, Label: cl.Label, Tags: cl.Tags, Text: cl.Text + "   [at the return at " + rr.pos + "]", Guard: rr.st.guard, Goal: g})
 				}
 				continue
 			}
